@@ -1134,6 +1134,12 @@ def rule_wrap(env, shared):
         good = False
         om = option_map_payload(ev0, F, b, lambda x: x[1] == R.T_CON + "::next_id_and_value"
                                 and unref(x[2][0]) in (("param", 1), ("deref", ("param", 1))))
+        if om is not None and om[1] is not None and om[1][0] == "ret" and ev0.fn_by_path(str(om[1][1])) is not None:
+            # the payload goes through a small accessor of the crate (`next.into_value()`): judged with it inlined
+            hb_ = ev0.fn_by_path(str(om[1][1]))
+            from terms import Ctx as _Ctx3
+            if hb_.arg_count == len(om[1][2]):
+                om = (om[0], unref(ev0.local(_Ctx3(hb_, params=tuple(om[1][2]), stack=(b.def_, hb_.def_), depth=1), 0)), om[2])
         if om is not None and om[1] is not None:
             rt, pay, cands = om
             good = pay[0] == "field" and pay[2] == 1 and unref(pay[1]) in cands
@@ -1173,6 +1179,11 @@ def rule_wrap(env, shared):
             return x[0] == "field" and x[2] == 0 and unref(x[1]) in (("param", 1), ("deref", ("param", 1)))
         om = option_map_payload(ev0, F, b, lambda x: x[1] in (R.T_CON + "::next", R.T_CON + "::next_id_and_value")
                                 and is_inner(x[2][0]))
+        if om is None:
+            # the pull may sit in a private method of the wrapper (`fn pull(&self) -> Option<Next<..>>`): judged with the
+            # crate's own functions inlined (the call on the wrapped iterator's type parameter stays what it is)
+            om = option_map_payload(env.ev, F, b, lambda x: x[1] in (R.T_CON + "::next", R.T_CON + "::next_id_and_value")
+                                    and is_inner(x[2][0]))
         if om is not None and om[1] is not None and om[1][0] == "ret" and ev0.fn_by_path(str(om[1][1])) is not None:
             # the payload goes through a small function of the crate (`next.into_id_and_value()`): judged with that one
             # function inlined
